@@ -8,7 +8,8 @@ MODULE = "Nice.Props.C13"
 THEOREMS = [f"Nice.Props.C13.{t}" for t in (
     "C13_constants", "C13_no_early_failure", "C13_failure_when_late", "rearm_due_le", "C13_consent_expiry",
     "C13_answers_keep_alive", "C13_403_immediate", "C13_gate_iff", "C13_consent_interval")] + [
-    "Nice.Props.C13Send.C13_send_needs_consent", "Nice.Props.C13Send.analysis_ok"]
+    "Nice.Props.C13Send.C13_send_needs_consent", "Nice.Props.C13Send.analysis_ok",
+    "Nice.Props.C13RemoveStream.C13_keepalive_timer_goes_with_last_stream", "Nice.Props.C13RemoveStream.analysis_ok"]
 TRUSTED = [
     "Lean 4 kernel; axioms propext, Classical.choice, Quot.sound only (audited every run)",
     "Nice/Gen/SendMessages.lean: skeleton of nice_agent_send_messages_nonblocking_internal REGENERATED from the source on every run "
